@@ -126,6 +126,7 @@ fn note_net_call() {
 
 fn check_cb(_url: &str, req: hooks::PatchCheckRequest) -> anyhow::Result<hooks::PatchCheckResponse> {
     note_net_call();
+    crate::hung::maybe_hang(2);
     let mut st = NET.lock().unwrap();
     st.log.push(NetAct::Check {
         app_id: req.app_id.clone(),
@@ -156,6 +157,7 @@ fn check_cb(_url: &str, req: hooks::PatchCheckRequest) -> anyhow::Result<hooks::
 
 fn download_cb(url: &str) -> anyhow::Result<Vec<u8>> {
     note_net_call();
+    crate::hung::maybe_hang(3);
     let mut st = NET.lock().unwrap();
     st.log.push(NetAct::Download(url.to_string()));
     match &st.dl {
@@ -166,6 +168,7 @@ fn download_cb(url: &str) -> anyhow::Result<Vec<u8>> {
 
 fn event_cb(_url: &str, req: hooks::CreatePatchEventRequest) -> anyhow::Result<()> {
     note_net_call();
+    crate::hung::maybe_hang(1);
     let v = serde_json::to_value(&req)?;
     let e = &v["event"];
     let kind = match e["type"].as_str().unwrap_or("") {
@@ -569,6 +572,13 @@ impl Runner {
 
     /// Execute one op against the real library; returns the ret token.
     pub fn exec(&mut self, op: &Op) -> String {
+        crate::tick();
+        let r = self.exec_inner(op);
+        crate::tick();
+        r
+    }
+
+    fn exec_inner(&mut self, op: &Op) -> String {
         {
             let mut st = NET.lock().unwrap();
             st.log.clear();
